@@ -323,6 +323,11 @@ def rel_pred(draw, depth, cfg, root="Item"):
         b = draw(scalar_cmp([], root, R["scalars"]))
         pair = (a, b) if draw(st.booleans()) else (b, a)
         return ("un", "not", ("bool", "and", pair[0], pair[1]))
+    if c < 33 and len(TO_ONE_PATHS) >= 2:
+        # two different to-one paths in one predicate (their hops may share a relationship name)
+        (s1, m1), (s2, m2) = draw(st.lists(st.sampled_from(sorted(TO_ONE_PATHS.items())), min_size=2, max_size=2, unique=True))
+        a, b = draw(scalar_cmp(list(s1), m1)), draw(scalar_cmp(list(s2), m2))
+        return ("bool", draw(st.sampled_from(["and", "or"])), a, b)
     if c < 45:
         return draw(scalar_cmp([], root, R["scalars"]))
     if c < 65:
